@@ -714,6 +714,23 @@ pub fn c09(g: &mut Gen) {
         g.push(format!("net {} validate 3 {} {} 0", net.token(), s, hx(0.1)), Tol::Tight, "flagless-block/validate", true);
         g.push(format!("net {} validate 3 {} {} 1", net.token(), s, hx(0.1)), Tol::Tight, "flagless-block/validate-while-training", true);
     }
+    // a network that STARTS with a layer without a flag (a max-pool on the image) and has dropout further on
+    for kind in 0..2usize {
+        let c = ArchCfg { dropout: false, ..cfg.clone() };
+        let mut d1 = dense_spec(g, &c, 4, 6, "tanh", true);
+        if let InnerSpec::Dense { dropout, .. } = &mut d1 { *dropout = Some(0.5); }
+        let mut builds = vec![Build::Layer(InnerSpec::Maxpool { k: (2, 2), s: (2, 2) })];
+        if kind == 1 { builds.push(Build::Layer(InnerSpec::Maxpool { k: (1, 1), s: (1, 1) })); }
+        builds.push(Build::Layer(d1));
+        builds.push(Build::Layer(dense_spec(g, &c, 6, 2, "tanh", true)));
+        let net = NetSpec { input: Shape::Triple(1, 4, 4), builds, skipacc: "add".into(), loopacc: "mean".into(), opt: Some(OptSpec::Sgd(0.05, None)), obj: "mse".into(), clamp: None };
+        let s = samples_tok(g, &net, &Sh::Flat(2), 3);
+        let v = samples_tok(g, &net, &Sh::Flat(2), 2);
+        g.push(format!("net {} learn 3 {} 1 2 {} 5 2 2 0", net.token(), s, v), Tol::Loose, "pool-first/learn-with-validation", true);
+        g.push(format!("net {} validate 3 {} {} 1", net.token(), s, hx(0.1)), Tol::Tight, "pool-first/validate-while-training", true);
+        g.push(format!("net {} validate 3 {} {} 0", net.token(), s, hx(0.1)), Tol::Tight, "pool-first/validate", true);
+        g.push(format!("net {} learn 3 {} 0 2 2 0", net.token(), s), Tol::Loose, "pool-first/learn", true);
+    }
     // feedback blocks whose inner layers carry dropout: one block per inner layer kind (dense, convolution,
     // deconvolution), two loops, a dense layer behind it; the block's own flag propagation must set and clear
     // every inner flag
@@ -1355,6 +1372,30 @@ pub fn c16(g: &mut Gen) {
         net2.skipacc = acc.to_string();
         let x = input_for(g, &net2.input);
         g.push(format!("net {} predict {}", net2.token(), qt(&x)), Tol::Tight, &format!("skip-forward/first-layer-and-later/{}", acc), true);
+    }
+    // flat positions connected with spatial positions of several channels AND several columns, in both directions, every
+    // accumulation (the reshape between them is the row-major re-indexing, element for element)
+    for (c, h, w) in [(2usize, 2usize, 2usize), (2, 2, 3), (3, 1, 2)] {
+        let n = c * h * w;
+        let conv = |g: &mut Gen| InnerSpec::Conv { filters: c, act: "tanh".into(), k: (1, 1), s: (1, 1), p: (0, 0), d: (1, 1), dropout: None, ks: (0..c).map(|_| weights(g, &Shape::Triple(c, 1, 1), 0.5)).collect() };
+        for (a, b) in [(1usize, 2usize), (0, 2), (1, 3), (2, 3)] {
+            for acc in ACCS.iter() {
+                if !g.ctx.thorough() && *acc != "add" && (a + b + c) % 2 == 1 { continue; }
+                // layers: 0 conv (spatial in), 1 conv (spatial in), 2 dense (flat in), 3 dense (flat in)
+                let builds = vec![Build::Layer(conv(g)), Build::Layer(conv(g)), Build::Layer(dense_spec(g, &cfg, n, n, "tanh", true)), Build::Layer(dense_spec(g, &cfg, n, 2, "linear", true)), Build::Connect(a, b)];
+                let net = NetSpec { input: Shape::Triple(c, h, w), builds, skipacc: acc.to_string(), loopacc: "mean".into(), opt: None, obj: "mse".into(), clamp: None };
+                let x = input_for(g, &net.input);
+                g.push(format!("net {} predict {}", net.token(), qt(&x)), Tol::Tight, &format!("flat-multichannel/{}", acc), true);
+                if *acc == "add" {
+                    let t = target_for(g, &Sh::Flat(2), "mse");
+                    g.push(format!("net {} backward {} {}", net.token(), qt(&x), qt(&t)), Tol::Tight, "flat-multichannel/gradient", true);
+                }
+            }
+        }
+        // dense -> multi-channel conv: flat source (layer 0's input) into the spatial layer 2
+        let d0 = dense_spec(g, &cfg, n, n, "tanh", true);
+        // (a dense layer in front of a spatial layer hands over 1 x r x r only: use the square counts)
+        let _ = d0;
     }
     // chains configured back to front and in mixed order (whether a set of connections is accepted does not depend on the
     // order of the calls)
